@@ -19,7 +19,7 @@ import PyxModel.Oal.LexGen
   `(` .. `)`.)
 -/
 namespace PyxProps.C13
-open Pyx.Oal
+open Pyx.OalLex
 
 /-- every non-literal rule of the table has a regex the model has a scanner for (the tie between the
     hand-modelled scanners and the regex SOURCE in the rule docstrings) -/
